@@ -10,19 +10,33 @@ if __name__ == "__main__":
     sys.path.insert(0, os.path.dirname(os.path.dirname(os.path.abspath(__file__))))
 from common import *
 
-LEAN_MODULES = ["Proofs.ImplV2Gen", "Proofs.ImplV2GenTransfer"]
+LEAN_MODULES = ["Proofs.ImplV2Gen", "Proofs.ImplV2GenEnc", "Proofs.ImplV2GenTransfer"]
 _Q = lambda names: ["EngineModel.Gen.ImplV2." + t for t in names]
 # regenerated decoder = hand model (every byte string; `_partial`: payload below vector::max_size() / 2^61 bytes)
 THEOREMS_EQ = _Q(["decodeTrack_eq", "decodeGrid_eq", "decodeBeat_eq", "decodeOvw_eq_partial",
                   "decodeCues_eq_partial", "decodeLoops_eq_partial"])
-# the C02 / C05 statements transferred to the regenerated model
+# regenerated encoder (explicit primitive writes in C++ order, own byte-order primitives) = Spec bytes
+THEOREMS_ENC = _Q(["encodeTrack_spec_partial", "encodeGrid_writes", "encodeBeat_spec_partial", "encodeOvw_spec_partial",
+                   "encodeCues_ok_partial", "encodeCues_reject_partial", "encodeLoops_ok_partial",
+                   "encodeLoops_reject_partial"])
+# C++-style primitives (shifts / masks) = Spec primitives (div / mod): byte order and widths
+THEOREMS_PRIM = ["EngineModel.CxxPrims." + t for t in [
+    "encode_int32_le_eq", "encode_int32_be_eq", "encode_int64_le_eq", "encode_int64_be_eq",
+    "decode_uint8_eq", "decode_int32_le_eq", "decode_int32_be_eq", "decode_int64_le_eq", "decode_int64_be_eq"]]
+# the C02 / C03 / C05 statements on the regenerated model
 THEOREMS_FOR = {
-    "C02": THEOREMS_EQ + _Q(["gen_track_spec", "gen_grid_spec", "gen_beat_spec", "gen_ovw_spec_partial",
-                             "gen_cues_spec_partial", "gen_loops_spec_partial"]),
+    "C02": THEOREMS_EQ + THEOREMS_ENC + THEOREMS_PRIM +
+           _Q(["gen_track_spec", "gen_grid_spec", "gen_beat_spec", "gen_ovw_spec_partial",
+               "gen_cues_spec_partial", "gen_loops_spec_partial"]),
+    "C03": THEOREMS_ENC +
+           _Q(["gen_track_roundtrip_partial", "gen_beat_roundtrip_partial", "gen_ovw_roundtrip_partial",
+               "gen_cues_roundtrip_partial", "gen_loops_roundtrip_partial",
+               "gen_encodeTrack_eq_hand_partial", "gen_encodeBeat_eq_hand_partial", "gen_encodeOvw_eq_hand_partial",
+               "gen_encodeCues_eq_hand_partial", "gen_encodeLoops_eq_hand_partial"]),
     "C05": THEOREMS_EQ + _Q(["gen_track_safe", "gen_beat_safe", "gen_ovw_safe_partial", "gen_cues_safe_partial",
                              "gen_loops_safe_partial"]),
 }
-THEOREMS = sorted(set(THEOREMS_FOR["C02"] + THEOREMS_FOR["C05"]))
+THEOREMS = sorted(set(sum(THEOREMS_FOR.values(), [])))
 TRUSTED_EXTRA = ["tools/tr_blobs.py (clang-14 JSON AST of src/djinterop/engine/v2/*_blob.cpp -> cursor-monad definitions; "
                  "node-kind -> combinator mapping and C++ struct <-> Lean structure table listed in design/codegen.md)"]
 ASSUMPTIONS = [
